@@ -73,3 +73,37 @@ example : run (mk 2 exP (some [3]) exFl) exOps =
   decide
 
 end Ice.Props.C05
+
+namespace Ice.Props.C05
+open Ice Ice.Spec Ice.Model.Iter
+
+/-- what the caller looks at (per flag) of what the code decoded is what it may look at of the
+    true posting -/
+theorem view_decoded (fl : Flags) (p : Posting) : view fl (decoded (RFlags.of fl) p) = view fl p := by
+  cases fl with
+  | mk f n l => cases f <;> cases n <;> cases l <;> simp [view, decoded, RFlags.of]
+
+private theorem specRun_view (fl : Flags) (L : List Posting) (ops : List IterOp) :
+    (specRun (RFlags.of fl) L ops).map (fun r => r.map (fun o => o.map (view fl))) =
+      (iterRun fl L ops).map some := by
+  induction ops generalizing L with
+  | nil => rfl
+  | cons op ops ih =>
+    simp only [specRun, iterRun, List.map_cons]
+    rw [ih]
+    congr 1
+    cases h : (iterStep L op).1 with
+    | none => simp
+    | some p => simp [view_decoded]
+
+/-- C05 in the vocabulary of the specification the correspondence harness uses
+    (`Spec.iterRun`, answers projected to the requested components): the model never faults and
+    its answers, seen through the flags, are the specification's -/
+theorem C05_view (cs : Nat) (hcs : 0 < cs) (P : List Posting) (hP : Sorted P)
+    (E : Option (List Nat)) (fl : Flags) (ops : List IterOp) :
+    (run (mk cs P E (RFlags.of fl)) ops).map (fun r => r.map (fun o => o.map (view fl))) =
+      (iterRun fl (live P E) ops).map some := by
+  rw [C05_entry_of cs hcs P hP E fl ops]
+  exact specRun_view fl _ ops
+
+end Ice.Props.C05
